@@ -9,6 +9,7 @@ import (
 	"errors"
 	"fmt"
 	"io"
+	"net"
 	"os"
 	"runtime"
 	"strconv"
@@ -244,4 +245,94 @@ func TestDialScenarios(t *testing.T) {
 		runtime.GOMAXPROCS(old)
 	}
 	t.Logf("ran %d scenarios", cnt)
+}
+
+// The stock Dialer (NewDialer): its own DialFunc against real sockets. A peer that accepts the TCP connection and then says
+// nothing (a stalled TLS handshake) is bounded by Timeout and by the caller's context like any other attempt, a peer that
+// completes the handshake is returned, and nothing keeps running afterwards. Real time; the bounds are generous.
+func TestStockDialer(t *testing.T) {
+	out := os.Getenv("VH_OUT")
+	if out == "" {
+		t.Skip("VH_OUT not set")
+	}
+	w := newNDWriter(t, out)
+	defer w.Close()
+	ln, err := net.Listen("tcp", "127.0.0.1:0")
+	if err != nil {
+		w.Write(Ev{"summary": true, "env": 1})
+		return
+	}
+	defer ln.Close()
+	var held []net.Conn
+	var hmu sync.Mutex
+	go func() {
+		for {
+			c, err := ln.Accept()
+			if err != nil {
+				return
+			}
+			hmu.Lock()
+			held = append(held, c) // accepted, never answered
+			hmu.Unlock()
+		}
+	}()
+	defer func() {
+		hmu.Lock()
+		for _, c := range held {
+			c.Close()
+		}
+		hmu.Unlock()
+	}()
+	runs := 0
+	for _, mode := range []string{"timeout", "cancel"} {
+		for k := 0; k < 3; k++ {
+			runs++
+			d := ech.NewDialer()
+			d.Timeout = 300 * time.Millisecond
+			d.ConcurrencyDelay = 50 * time.Millisecond
+			ctx, cancel := context.WithCancel(context.Background())
+			if mode == "cancel" {
+				d.Timeout = 30 * time.Second
+				time.AfterFunc(200*time.Millisecond, cancel)
+			}
+			type res struct {
+				c   *tls.Conn
+				err error
+			}
+			ch := make(chan res, 1)
+			t0 := time.Now()
+			go func() {
+				c, err := d.Dial(ctx, "tcp", ln.Addr().String(), &tls.Config{ServerName: "stalled.example", InsecureSkipVerify: true})
+				ch <- res{c, err}
+			}()
+			select {
+			case r := <-ch:
+				if r.err == nil {
+					w.Write(Ev{"key": mode, "diff": "Dial returned a connection from a peer that never answered the handshake"})
+				}
+				if el := time.Since(t0); el > watchdogLimit() {
+					w.Write(Ev{"key": mode, "diff": fmt.Sprintf("Dial against a stalled handshake returned after %v (Timeout / cancellation at 0.2-0.3 s)", el)})
+				}
+			case <-time.After(2 * watchdogLimit()):
+				noteHang()
+				w.Write(Ev{"key": mode, "diff": "Dial against a peer that accepts TCP and stalls the TLS handshake does not return: the attempt is bounded neither by Timeout nor by the caller's context"})
+			}
+			cancel()
+		}
+	}
+	// nothing of the Dialer keeps running (the attempts' goroutines end with their context)
+	deadline := time.Now().Add(watchdogLimit())
+	g := 0
+	for {
+		buf := make([]byte, 1<<20)
+		g = strings.Count(string(buf[:runtime.Stack(buf, true)]), "ech.(*Dialer")
+		if g == 0 || time.Now().After(deadline) {
+			break
+		}
+		time.Sleep(20 * time.Millisecond)
+	}
+	if g != 0 && hangsSeen.Load() == 0 {
+		w.Write(Ev{"key": "leak", "diff": fmt.Sprintf("%d Dialer goroutines still running after every Dial has returned", g)})
+	}
+	w.Write(Ev{"summary": true, "runs": runs})
 }
